@@ -504,7 +504,9 @@ inline std::pair<uint64_t, uint64_t> comm::barrier_reduce_counts() {
       } else {
         mpi_irecv_request req_buffer = m_recv_queue.front();
         m_recv_queue.pop_front();
+        m_in_process_receive_queue = true;
         handle_next_receive(twin_status[i], req_buffer.buffer);
+        m_in_process_receive_queue = false;
         flush_all_local_and_process_incoming();
       }
     }
